@@ -151,13 +151,204 @@ def rule_A2(ctx) -> None:
     ctx.floor("A2", "task_done sites", n_inst, 0)
 
 
-def _closed_gate(g: CFG) -> List[Node]:
+class ChannelState:
+    """The life-cycle state of the channel as the class keeps it: the instance attributes that are only ever assigned constants
+    (two booleans `_closed` / `_flushed`, or one stage number, ...) with the finite set of values each can take.  Tests of the
+    methods are evaluated over that finite state space, so the rules ask "is this test true exactly in the closed states"
+    rather than "does the text mention `_closed`"."""
+
+    def __init__(self, mod):
+        self.mod = mod
+        self.consts = {k: v for k, v in mod.consts.items() if isinstance(v, (bool, int)) or v is None}
+        dom: Dict[str, Set] = {}
+        other: Set[str] = set()
+        for mname, fns in mod.methods(CLS).items():
+            for fn in fns:
+                for n in ast.walk(fn):
+                    tgts = []
+                    if isinstance(n, ast.Assign):
+                        tgts = [(t, n.value) for t in n.targets]
+                    elif isinstance(n, ast.AnnAssign) and n.value is not None:
+                        tgts = [(n.target, n.value)]
+                    elif isinstance(n, ast.AugAssign):
+                        tgts = [(n.target, None)]
+                    for t, v in tgts:
+                        if isinstance(t, ast.Attribute) and isinstance(t.value, ast.Name) and t.value.id == "self":
+                            c = self._const(v) if v is not None else None
+                            if c is None:
+                                other.add(t.attr)
+                            else:
+                                dom.setdefault(t.attr, set()).add(c[0])
+        self.domain = {a: sorted(vs, key=repr) for a, vs in dom.items() if a not in other and 1 < len(vs) <= 4}
+        self.states: List[Dict[str, object]] = [{}]
+        for a, vs in sorted(self.domain.items()):
+            self.states = [dict(s_, **{a: v}) for s_ in self.states for v in vs]
+        cf = mod.func(f"{CLS}.closed")
+        rets = [r.value for r in ast.walk(cf) if isinstance(r, ast.Return) and r.value is not None]
+        self.closed_expr = rets[0] if len(rets) == 1 else None
+
+    def _const(self, v: ast.AST):
+        if isinstance(v, ast.Constant) and (isinstance(v.value, (bool, int)) or v.value is None):
+            return (v.value,)
+        if isinstance(v, ast.Name) and v.id in self.consts:
+            return (self.consts[v.id],)
+        return None
+
+    def attrs_in(self, e: ast.AST) -> Set[str]:
+        out = {n.attr for n in ast.walk(e) if isinstance(n, ast.Attribute) and isinstance(n.value, ast.Name) and n.value.id == "self" and n.attr in self.domain}
+        if any(isinstance(n, ast.Call) and ast.unparse(n.func) == "self.closed" for n in ast.walk(e)) and self.closed_expr is not None:
+            out |= self.attrs_in(self.closed_expr)
+        return out
+
+    def ev(self, e: ast.AST, st: Dict[str, object], depth: int = 0):
+        """value of the expression in state `st` (None when it depends on anything else)"""
+        from ..sym import subst
+        t = from_ast(e, lambda n: C(self.consts[n]) if n in self.consts else None)
+
+        def rep(x):
+            if x[0] == "a" and x[1] == N("self") and x[2] in st:
+                return C(st[x[2]])
+            if x[0] == "call" and x[1] == A(N("self"), "closed") and not x[2] and depth < 2 and self.closed_expr is not None:
+                v = self.ev(self.closed_expr, st, depth + 1)
+                return C(v) if v is not None else None
+            return None
+        def deep(x):
+            if isinstance(x, tuple) and x and x[0] == "op":
+                return simplify(("op", x[1]) + tuple(deep(y) for y in x[2:]))
+            if isinstance(x, tuple) and x and x[0] == "ife":
+                c_ = deep(x[1])
+                if c_[0] == "c":
+                    return deep(x[2]) if c_[1] else deep(x[3])
+            return x
+        r = deep(subst(t, rep))
+        return r[1] if r[0] == "c" else None
+
+    def closed_states(self) -> Optional[List[Dict[str, object]]]:
+        if self.closed_expr is None:
+            return None
+        out = []
+        for st in self.states:
+            v = self.ev(self.closed_expr, st)
+            if v is None:
+                return None
+            if v:
+                out.append(st)
+        return out
+
+    def true_exactly_when_closed(self, test: ast.AST) -> bool:
+        cs = self.closed_states()
+        if cs is None or not self.attrs_in(test):
+            return False
+        for st in self.states:
+            v = self.ev(test, st)
+            if v is None or bool(v) != (st in cs):
+                return False
+        return True
+
+
+    def once_guards(self, fn: ast.AST):
+        """[(If node, taken: bool, [stores])]: a test of the life-cycle state with, in one of its branches, constant stores to
+        state attributes after which the same test no longer takes that branch - in every state that takes it"""
+        out = []
+        follow: Dict[int, List[ast.stmt]] = {}
+        for parent in ast.walk(fn):
+            for fld in ("body", "orelse", "finalbody"):
+                blk = getattr(parent, fld, None)
+                if isinstance(blk, list) and blk and isinstance(blk[0], ast.stmt):
+                    for k_, st_ in enumerate(blk):
+                        follow[id(st_)] = blk[k_ + 1:]
+        for n in ast.walk(fn):
+            if not isinstance(n, ast.If) or not self.attrs_in(n.test):
+                continue
+            branches = [(True, n.body), (False, n.orelse)]
+            # `if T: return` / `if T: raise`: what follows the statement is the other branch
+            if not n.orelse and n.body and isinstance(n.body[-1], (ast.Return, ast.Raise)):
+                branches = [(False, follow.get(id(n), []))]
+            for taken, block in branches:
+                stores = [st for st in block if isinstance(st, ast.Assign) and len(st.targets) == 1 and isinstance(st.targets[0], ast.Attribute)
+                          and isinstance(st.targets[0].value, ast.Name) and st.targets[0].value.id == "self" and st.targets[0].attr in self.domain and self._const(st.value) is not None]
+                if not stores:
+                    continue
+                ok = True
+                some = False
+                for stt in self.states:
+                    v = self.ev(n.test, stt)
+                    if v is None:
+                        ok = False
+                        break
+                    if bool(v) != taken:
+                        continue
+                    some = True
+                    after = dict(stt)
+                    for st in stores:
+                        after[st.targets[0].attr] = self._const(st.value)[0]
+                    v2 = self.ev(n.test, after)
+                    if v2 is None or bool(v2) == taken:
+                        ok = False
+                        break
+                if ok and some:
+                    out.append((n, taken, stores))
+        return out
+
+    def simulate(self, stmts: List[ast.stmt], st: Dict[str, object], stop) -> Optional[Dict[str, object]]:
+        """state after running the statements up to (not including) the first one for which stop(stmt) holds: constant
+        stores to state attributes are applied, `if` tests over the state are decided, everything else is skipped.
+        None when a test that guards a state store cannot be decided."""
+        cur = dict(st)
+
+        def run(block) -> Optional[bool]:
+            nonlocal cur
+            for s_ in block:
+                if stop(s_):
+                    return True
+                if isinstance(s_, ast.Assign) and len(s_.targets) == 1 and isinstance(s_.targets[0], ast.Attribute) and isinstance(s_.targets[0].value, ast.Name) \
+                        and s_.targets[0].value.id == "self" and s_.targets[0].attr in self.domain:
+                    c = self._const(s_.value)
+                    if c is None:
+                        return None
+                    cur[s_.targets[0].attr] = c[0]
+                elif isinstance(s_, ast.If):
+                    touches = any(isinstance(x, ast.Attribute) and isinstance(x.ctx, ast.Store) and x.attr in self.domain for b in (s_.body, s_.orelse) for y in b for x in ast.walk(y)) \
+                        or any(stop(y) for b in (s_.body, s_.orelse) for z in b for y in ast.walk(z) if isinstance(y, ast.stmt))
+                    v = self.ev(s_.test, cur)
+                    if v is None:
+                        if touches:
+                            return None
+                        continue
+                    r = run(s_.body if v else s_.orelse)
+                    if r is None or r is True:
+                        return r
+                elif isinstance(s_, (ast.Return, ast.Raise)):
+                    return True
+            return False
+
+        r = run(stmts)
+        return None if r is None else cur
+
+
+_STATE_CACHE: Dict[int, ChannelState] = {}
+
+
+def channel_state(mod) -> ChannelState:
+    if id(mod) not in _STATE_CACHE:
+        _STATE_CACHE.clear()
+        _STATE_CACHE[id(mod)] = ChannelState(mod)
+    return _STATE_CACHE[id(mod)]
+
+
+def _closed_gate(g: CFG, cs: Optional[ChannelState] = None) -> List[Node]:
+    """tests that hold exactly in the closed states of the channel and raise ChannelClosed"""
     out = []
     for nd in g.nodes:
         if nd.kind == "test" and isinstance(nd.stmt, ast.If):
             txt = ast.unparse(nd.stmt.test)
-            if ("self._closed" in txt or "self.closed()" in txt) and any(
-                    isinstance(b, ast.Raise) and b.exc is not None and "ChannelClosed" in ast.unparse(b.exc) for b in nd.stmt.body):
+            raises = any(isinstance(b, ast.Raise) and b.exc is not None and "ChannelClosed" in ast.unparse(b.exc) for b in nd.stmt.body)
+            if not raises:
+                continue
+            if cs is not None and cs.closed_states() is not None:
+                if cs.true_exactly_when_closed(nd.stmt.test):
+                    out.append(nd)
+            elif "self._closed" in txt or "self.closed()" in txt:
                 out.append(nd)
     return out
 
@@ -168,7 +359,8 @@ def rule_A3(ctx) -> None:
     fn = mod.func(f"{CLS}.send")
     ctx.analysed(f"{CLS}.send", f"{CLS}.send_from")
     g = CFG(fn, implicit_exc=False)
-    gates = _closed_gate(g)
+    cs = channel_state(mod)
+    gates = _closed_gate(g, cs)
     puts = _stmt_nodes(g, lambda s: _calls(s, "_queue.put") or _calls(s, "_queue.put_nowait"))
     if not puts:
         raise AnalysisError("send: queue.put not found")
@@ -196,7 +388,7 @@ def rule_A3(ctx) -> None:
     # send_from: the gate is the first statement
     fn = mod.func(f"{CLS}.send_from")
     g = CFG(fn, implicit_exc=False)
-    gates = _closed_gate(g)
+    gates = _closed_gate(g, cs)
     first = [t for t, lab in g.succ[g.entry.id]]
     # skip docstring
     while first and g.nodes[first[0]].kind == "stmt" and isinstance(g.nodes[first[0]].stmt, ast.Expr) and isinstance(g.nodes[first[0]].stmt.value, ast.Constant):
@@ -249,16 +441,21 @@ def rule_A4(ctx) -> None:
     fn = mod.func(f"{CLS}._flush_queue")
     ctx.analysed(f"{CLS}._flush_queue", f"{CLS}.close", f"{CLS}.done")
     g = CFG(fn, implicit_exc=False)
-    tests = [nd for nd in g.nodes if nd.kind == "test" and isinstance(nd.stmt, ast.If) and "_flushed" in ast.unparse(nd.stmt.test)]
-    sets = _stmt_nodes(g, lambda s: isinstance(s, ast.Assign) and any(_attr_is(t, "_flushed") for t in s.targets))
+    cs = channel_state(mod)
+    og = cs.once_guards(fn)
+    og_tests = {id(n_) for n_, _, _ in og}
+    og_sets = {id(st_) for _, _, sts in og for st_ in sts}
+    tests = [nd for nd in g.nodes if nd.kind == "test" and isinstance(nd.stmt, ast.If) and id(nd.stmt) in og_tests]
+    sets = _stmt_nodes(g, lambda s: id(s) in og_sets)
     puts = _stmt_nodes(g, lambda s: _calls(s, "_queue.put") or _calls(s, "_queue.put_nowait"))
     if not tests or not sets:
         # the guard may live where the flush is scheduled instead: close() tests and sets `_flushed` before it starts the
         # (only) flush task, and nobody else calls _flush_queue
         cf = mod.func(f"{CLS}.close")
         cg = CFG(cf, implicit_exc=False)
-        ctests = [nd for nd in cg.nodes if nd.kind == "test" and isinstance(nd.stmt, ast.If) and "_flushed" in ast.unparse(nd.stmt.test)]
-        csets = _stmt_nodes(cg, lambda s: isinstance(s, ast.Assign) and any(_attr_is(t, "_flushed") for t in s.targets) and isinstance(s.value, ast.Constant) and s.value.value is True)
+        cog = cs.once_guards(cf)
+        ctests = [nd for nd in cg.nodes if nd.kind == "test" and isinstance(nd.stmt, ast.If) and id(nd.stmt) in {id(n_) for n_, _, _ in cog}]
+        csets = _stmt_nodes(cg, lambda s: id(s) in {id(st_) for _, _, sts in cog for st_ in sts})
         cflush = _stmt_nodes(cg, lambda s: "_flush_queue" in ast.unparse(s))
         other_callers = [m for m, fns in mod.methods(CLS).items() for f in fns if m not in ("close", "_flush_queue")
                          and any(isinstance(n, ast.Attribute) and n.attr == "_flush_queue" for n in ast.walk(f))]
@@ -268,15 +465,15 @@ def rule_A4(ctx) -> None:
         # the flagged branch of the test must not reach the scheduling statement
         if guarded_in_close:
             for t in ctests:
-                tt = simplify(from_ast(t.stmt.test))
-                flagged_edge = "false" if (tt[0] == "op" and tt[1] == "not") else "true"
+                taken_ = next(tk for n_, tk, _ in cog if n_ is t.stmt)
+                flagged_edge = "false" if taken_ else "true"
                 reach = cg.reachable([x for x, lab in cg.succ[t.id] if lab == flagged_edge], labels=normal_edge)
                 if any(f_.id in reach for f_ in cflush):
                     guarded_in_close = False
         if guarded_in_close:
             ctx.proved("A4", "_flush_queue:once", mod.loc(cf), "close() schedules the flush once (guard on `_flushed` before the only scheduling site)")
         else:
-            ctx.refuted("A4", "_flush_queue:once", "no-guard", mod.loc(fn), "_flush_queue has no once-only guard on `_flushed`: two close() calls inject sentinels twice",
+            ctx.refuted("A4", "_flush_queue:once", "no-guard", mod.loc(fn), "_flush_queue has no once-only guard (a test of the life-cycle state whose branch stores a state that fails the test): two close() calls inject sentinels twice",
                         "ch.close(); ch.close() with blocked receivers")
     else:
         bad = False
@@ -288,18 +485,26 @@ def rule_A4(ctx) -> None:
         dom = g.dominators(labels=normal_edge)
         guarded = all(dom[p.id] & {x.id for x in sets} for p in puts)
         if bad:
-            ctx.refuted("A4", "_flush_queue:once", "await-between", mod.loc(fn), "a suspension point lies between testing and setting `_flushed`")
+            ctx.refuted("A4", "_flush_queue:once", "await-between", mod.loc(fn), "a suspension point lies between testing and setting the flushed state")
         elif not guarded:
-            ctx.refuted("A4", "_flush_queue:once", "put-before-set", mod.loc(fn), "sentinels are put before `_flushed` is set")
+            ctx.refuted("A4", "_flush_queue:once", "put-before-set", mod.loc(fn), "sentinels are put before the flushed state is recorded")
         else:
             ctx.proved("A4", "_flush_queue:once", mod.loc(fn))
     # close(): _closed = True before the flush is scheduled
     fn = mod.func(f"{CLS}.close")
     g = CFG(fn, implicit_exc=False)
-    sets = _stmt_nodes(g, lambda s: isinstance(s, ast.Assign) and any(_attr_is(t, "_closed") for t in s.targets) and isinstance(s.value, ast.Constant) and s.value.value is True)
+    sets = _stmt_nodes(g, lambda s: isinstance(s, ast.Assign) and any(isinstance(t, ast.Attribute) and isinstance(t.value, ast.Name) and t.value.id == "self" and t.attr in cs.domain for t in s.targets))
     flush = _stmt_nodes(g, lambda s: _calls(s, "_flush_queue") or "_flush_queue" in ast.unparse(s))
-    if not sets:
-        ctx.refuted("A4", "close:sets-closed-first", "no-store", mod.loc(fn), "close() does not set `_closed = True`")
+    # the state in which the flush is scheduled, for every state close() can be called in: closed
+    at_flush = [cs.simulate(fn.body, st_, lambda x: not isinstance(x, (ast.If,)) and "_flush_queue" in ast.unparse(x)) for st_ in cs.states]
+    closed_sts = cs.closed_states()
+    becomes_closed = closed_sts is not None and all(a_ is not None and a_ in closed_sts for a_ in at_flush)
+    if not sets or (closed_sts is not None and not all(a_ is not None for a_ in at_flush)):
+        ctx.refuted("A4", "close:sets-closed-first", "no-store", mod.loc(fn), "close() does not put the channel into a closed state (closed() stays False)")
+    elif flush and closed_sts is not None and not becomes_closed:
+        ctx.refuted("A4", "close:sets-closed-first", "order", mod.loc(fn), "when the flush is scheduled the channel is not yet in a closed state")
+    elif flush and becomes_closed:
+        ctx.proved("A4", "close:sets-closed-first", mod.loc(fn), f"closed in all {len(cs.states)} life-cycle states when the flush is scheduled")
     elif not flush:
         ctx.refuted("A4", "close:sets-closed-first", "no-flush", mod.loc(fn), "close() does not start the flush that wakes blocked receivers",
                     "receiver blocked in receive(); ch.close() - receiver never returns")
@@ -315,24 +520,39 @@ def rule_A11(ctx) -> None:
     """the channel is closed only through close(): it is the one place that pairs `_closed = True` with the flush that wakes
     the receivers no item is left for - any other function that sets `_closed` itself leaves them blocked"""
     mod = ctx.repo.mod(M_CHANNEL)
+    cs = channel_state(mod)
+    closed_attrs = cs.attrs_in(cs.closed_expr) if cs.closed_expr is not None and cs.attrs_in(cs.closed_expr) else {"_closed"}
     writers = []
     for mname, fns in mod.methods(CLS).items():
         for fn in fns:
             for n in ast.walk(fn):
                 tgts = n.targets if isinstance(n, ast.Assign) else [n.target] if isinstance(n, (ast.AugAssign, ast.AnnAssign)) else []
                 for t in tgts:
-                    if _attr_is(t, "_closed"):
+                    if any(_attr_is(t, a_) for a_ in closed_attrs):
                         writers.append((mname, n))
-                if isinstance(n, ast.Call) and ast.unparse(n.func) in ("setattr", "object.__setattr__") and any(isinstance(a, ast.Constant) and a.value == "_closed" for a in n.args):
+                if isinstance(n, ast.Call) and ast.unparse(n.func) in ("setattr", "object.__setattr__") and any(isinstance(a, ast.Constant) and a.value in closed_attrs for a in n.args):
                     writers.append((mname, n))
-    rogue = [(m, n) for m, n in writers if m not in ("__init__", "close")]
+    # methods that only close() refers to (the flush it schedules) run in a closed channel: they may move the life cycle on
+    only_from_close = {m for m in mod.methods(CLS) if m not in ("close", "__init__") and not any(
+        isinstance(x, ast.Attribute) and x.attr == m for m2, fns2 in mod.methods(CLS).items() if m2 not in ("close", m) for f2 in fns2 for x in ast.walk(f2))
+        and any(isinstance(x, ast.Attribute) and x.attr == m for f2 in mod.methods(CLS).get("close", []) for x in ast.walk(f2))}
+
+    def closes(m: str, n: ast.AST) -> bool:
+        # does this store take an open channel to a closed state?
+        if m in only_from_close and len(closed_attrs) == 1 and cs.closed_states() is not None:
+            val = cs._const(n.value) if isinstance(n, ast.Assign) else None
+            if val is not None:
+                return False        # reached only in closed states; a constant store there cannot be the closing step
+        return True
+
+    rogue = [(m, n) for m, n in writers if m not in ("__init__", "close") and closes(m, n)]
     if rogue:
         m, n = rogue[0]
         ctx.refuted("A11", "closed-flag:only-close-sets-it", ",".join(sorted({m for m, _ in rogue})), mod.loc(n),
                     f"{m}() sets `_closed` itself instead of calling close(): the flush that injects one sentinel per stranded receiver is never scheduled on that route, so receivers "
                     "blocked beyond the buffered items wait for ever", "two receivers blocked, send_from([x], close=True)")
     elif not any(m == "close" for m, _ in writers):
-        ctx.inconclusive("A11", "closed-flag:only-close-sets-it", "close() does not set `_closed`", mod.rel)
+        ctx.inconclusive("A11", "closed-flag:only-close-sets-it", f"close() does not store the closed state ({sorted(closed_attrs)})", mod.rel)
     else:
         ctx.proved("A11", "closed-flag:only-close-sets-it", mod.rel, f"{len(writers)} stores, in __init__ / close only")
 
@@ -478,7 +698,10 @@ def rule_A8(ctx) -> None:
     paths = Interp(mod).run(fn)
     ctx.count(len(paths))
     txt = " ".join(show(k) for p in paths for k in p.valuation) + " " + " ".join(show(p.value) for p in paths if p.value is not None)
-    need = {"closed flag": "_closed" in txt, "queue size": ("qsize" in txt or "empty" in txt), "waiting receivers": "_waiting_receivers" in txt}
+    cs = channel_state(mod)
+    closed_attrs = cs.attrs_in(cs.closed_expr) if cs.closed_expr is not None else {"_closed"}
+    reads_closed = any(f"self.{a}" in txt for a in closed_attrs) or "self.closed()" in txt or "_closed" in txt
+    need = {"closed flag": reads_closed, "queue size": ("qsize" in txt or "empty" in txt), "waiting receivers": "_waiting_receivers" in txt}
     missing = [k for k, v in need.items() if not v]
     if missing:
         ctx.refuted("A8", "done:dependencies", ",".join(missing), mod.loc(fn),
@@ -504,20 +727,44 @@ def rule_A9(ctx) -> None:
     mod = ctx.repo.mod(M_CHANNEL)
     n = 0
     bad = []
-    for mname, fns in mod.methods(CLS).items():
+    for mname, fns0 in mod.methods(CLS).items():
+        # the methods with their private helpers expanded in place: a put made through a helper is a put of every caller
+        fns = [mod.func(f"{CLS}.{mname}", k_) for k_ in range(len(fns0))]
         for fn in fns:
             awaited = {id(x.value) for x in ast.walk(fn) if isinstance(x, ast.Await)}
+            # local names bound to the queue itself
+            qnames = {st.targets[0].id for st in ast.walk(fn) if isinstance(st, ast.Assign) and len(st.targets) == 1 and isinstance(st.targets[0], ast.Name)
+                      and isinstance(st.value, ast.Attribute) and st.value.attr == "_queue"}
             # local names bound to the queue's put / put_nowait
             bound = {st.targets[0].id: st.value.attr for st in ast.walk(fn) if isinstance(st, ast.Assign) and len(st.targets) == 1 and isinstance(st.targets[0], ast.Name)
                      and isinstance(st.value, ast.Attribute) and st.value.attr in ("put", "put_nowait") and "_queue" in ast.unparse(st.value.value)}
+
+            def is_queue(e: ast.AST) -> bool:
+                return "_queue" in ast.unparse(e) or (isinstance(e, ast.Name) and e.id in qnames)
+
+            # put_nowait is safe in the branch of a `full()` test that found room, as long as nothing suspends in between
+            room: Set[int] = set()
+            for iff in [x for x in ast.walk(fn) if isinstance(x, ast.If)]:
+                t_ = iff.test
+                neg = isinstance(t_, ast.UnaryOp) and isinstance(t_.op, ast.Not)
+                core = t_.operand if neg else t_
+                if isinstance(core, ast.Call) and isinstance(core.func, ast.Attribute) and core.func.attr == "full" and is_queue(core.func.value):
+                    blk = iff.body if neg else iff.orelse
+                    for st_ in blk:
+                        if any(isinstance(x, ast.Await) for x in ast.walk(st_)):
+                            break
+                        room |= {id(x) for x in ast.walk(st_) if isinstance(x, ast.Call)}
             for c in ast.walk(fn):
+                if isinstance(c, ast.Call) and isinstance(c.func, ast.Attribute) and c.func.attr == "put_nowait" and is_queue(c.func.value) and id(c) in room:
+                    n += 1
+                    continue
                 if isinstance(c, ast.Call) and isinstance(c.func, ast.Name) and c.func.id in bound:
                     n += 1
                     if bound[c.func.id] == "put_nowait":
                         bad.append((mname, c, "put_nowait"))
                     elif id(c) not in awaited:
                         bad.append((mname, c, "put not awaited"))
-                if isinstance(c, ast.Call) and isinstance(c.func, ast.Attribute) and "_queue" in ast.unparse(c.func.value):
+                if isinstance(c, ast.Call) and isinstance(c.func, ast.Attribute) and is_queue(c.func.value):
                     if c.func.attr == "put_nowait":
                         bad.append((mname, c, "put_nowait"))
                         n += 1
@@ -559,11 +806,20 @@ def rule_A10(ctx) -> None:
     S = N("self")
     bad = None
     n = 0
-    for w in range(0, 4):
-        for q in range(0, 3):
-            b = {A(S, "_flushed"): False, A(S, "_waiting_receivers"): w,
+    # the life-cycle states in which the flush has work to do: those in which its once-only guard lets it through (all states
+    # of the class when the guard lives elsewhere)
+    cs = channel_state(mod)
+    og = cs.once_guards(fn)
+    pre_states = [st_ for st_ in cs.states if all(cs.ev(n_.test, st_) is not None and bool(cs.ev(n_.test, st_)) == tk for n_, tk, _ in og)] if og else [
+        st_ for st_ in (cs.closed_states() or cs.states)]
+    if not pre_states:
+        pre_states = [{}]
+    for w, q, st_ in [(w_, q_, s_) for w_ in range(0, 4) for q_ in range(0, 3) for s_ in pre_states]:
+        if True:
+            b = {A(S, "_waiting_receivers"): w,
                  ("call", A(A(S, "_queue"), "qsize"), (), ()): q, ("call", A(A(S, "_queue"), "empty"), (), ()): q == 0,
                  ("call", A(A(S, "_queue"), "full"), (), ()): False}
+            b.update({A(S, a_): v_ for a_, v_ in st_.items()})
             paths = Interp(mod, bindings=b, concrete_while=True).run(fn)
             ctx.count(len(paths))
             for p in paths:
